@@ -7,11 +7,14 @@ single-source operator of the C05/C06 tables run through `lift`.  Oracle: on the
 implementation's own boundary log, once the subscriber saw a terminal, every
 source that was subscribed has been unsubscribed (at that instant) and nothing
 is subscribed afterwards."""
+import random
+
 import comb_oracle
 import comb_table
 import k2
 import k2m
 import lib
+import relcases
 from props import C05, C06
 
 IMPORTS = ("Base.Prelude Base.CaseLib Ops.Machine Ops.Elementwise Ops.Aggregates Ops.Multi Ops.MultiCase "
@@ -135,15 +138,40 @@ def run(chk):
                  mode={"p_dispose": 0.2, "p_late": 0.5, "p_none": 0.45})
     nt_timed = chk.cov["distinct_nontrivial"]
     timed_dist = chk.cov.get("input_distribution", {})
-    chk.cov["distinct_nontrivial"] = nt_multi + len(nt) + nt_timed
+    # oracle-only families (harness/relcases.py; own random stream, the cases above are unchanged by them):
+    # sources that emit / terminate inside their own subscribe(), early termination of a COMPOSITION
+    # (operator + take(n)/first()), subscribers whose terminal callbacks raise on single-source operators
+    rx = random.Random(f"C02-relcases-{chk.seed}")
+    q = chk.tier == "quick"
+    extra, nt_extra = {}, 0
+    for fam, names, n, opts in [
+            ("sync", MULTI, 40 if q else 500, dict(p_sync=1.0, dispose="event", p_dispose=0.15, p_sub_raises=0.3)),
+            ("tail", MULTI, 40 if q else 500, dict(p_tail=1.0, p_sync=0.3, dispose="event", p_dispose=0.1,
+                                                    p_sub_raises=0.2))]:
+        extra[fam], s = relcases.multi_family(chk, "C02", fam, names, n, opts, rx)
+        nt_extra += len(s)
+    for fam, n, opts in [("single_sub_raises", 8 if q else 100, dict(sub_raises=True)),
+                         ("single_sync", 8 if q else 100, dict(sync=True)),
+                         ("single_sync_sub_raises", 4 if q else 50, dict(sync=True, sub_raises=True))]:
+        extra[fam], s = relcases.single_family(chk, "C02", fam, n, opts, rx)
+        nt_extra += len(s)
+    chk.cov["distinct_nontrivial"] = nt_multi + len(nt) + nt_timed + nt_extra
     chk.cov["input_distribution"] = {"multi_source": dist, "single_source_per_operator": per_op,
-                                     "time_based_release_mode": timed_dist}
+                                     "time_based_release_mode": timed_dist, "oracle_only_families": extra}
     chk.cov["rule"] = ("multi-source: as C10-C13 (seeded interleavings of hot sources incl. non-conforming tails and "
                        "dispose instants); single-source: every operator of the C05/C06 tables on seeded hot inputs, "
                        "run through `lift`; non-trivial = distinct cases in which a source was subscribed and "
                        "released and the oracle held; time-based: every operator of the C15-C17 tables with 45% "
                        "never-terminating sources and 50% LATE dispose (after every event and due timer), 20% dispose at "
-                       "an event instant")
+                       "an event instant.  Oracle-only families (harness/relcases.py, one seed per case): `sync` = the "
+                       "same multi-source operators with 60% of their sources (static and mapper-made) delivering a "
+                       "prefix of their sequence -- half of them all of it, terminal included -- INSIDE subscribe(), 30% "
+                       "raising subscriber; `tail` = operator followed by take(0..3)/first() (early termination of a "
+                       "composition), 30% with such sources; `single_*` = every C05/C06 operator with a subscriber whose "
+                       "terminal callbacks raise, and/or with a source that delivers a prefix (possibly its terminal) "
+                       "inside subscribe(); judged by: grammar, every source released by the end of the step of the "
+                       "terminal, nothing emitted or subscribed afterwards; non-trivial = a source was subscribed, "
+                       "released, and the oracle held")
     return chk.finish(trusted_extra=["runner assumption: an operator's disposable holds every subscription/timer it "
                                      "opened (Ops/Multi.v) -- this run compares unsubscribe instants operator by "
                                      "operator", "harness/k2m.py, harness/k2.py drivers"],
@@ -155,6 +183,8 @@ def run(chk):
 def replay(chk, path):
     import json
     d = json.load(open(path))
+    if relcases.is_replay(d):
+        return relcases.replay_main("C02", path)
     if "cases" in d:
         import timed_table as tt
         return tt.replay_cases("C02", lambda name, inst, res: tt.common_timed(res, tt.view(res)), path)
